@@ -116,7 +116,7 @@ def step (_ : Unit) (line : String) : Unit × String :=
       | some s => let r := validate (html == "1") s 0; s!"{boolStr r.1} {r.2}" | none => "bad-op"
     | ["vu", h] => match parseHex h with
       | some s => let r := validUtf8 s 0; s!"{boolStr r.1} {r.2}" | none => "bad-op"
-    | ["valid", n, h] => match parseHex n, parseHex h with
+    | ["valid", n, h] | ["vloc", n, h] => match parseHex n, parseHex h with
       | some n, some s => verdictStr (valid (nm n) s) | _, _ => "bad-op"
     | ["filt", n, rp, h] => match parseHex n, parseHex rp, parseHex h with
       | some n, some [rp], some s => filtStr (validateOrFilter (nm n) s rp) | _, _, _ => "bad-op"
